@@ -172,6 +172,19 @@ Begin(t) ==
          [] o.k = "rcu" ->
               /\ Set(t, With([L(t) EXCEPT !.c = o.c, !.kind = "rcu", !.steps = 0, !.stack = <<"R_cur">>, !.depth = 1, !.spur = 0], LoadEntry))
               /\ Emit(<<InvEv(t, "rcu", o.c, FreeH(t))>>) /\ UNCHANGED <<sh, hp>>
+         [] o.k = "cas" ->     \* compare_and_swap(&handle, fresh value): current = the oldest handle the thread holds
+              /\ IF L(t).handles = <<>> THEN Set(t, [L(t) EXCEPT !.ip = @ + 1]) /\ NoEmit /\ UNCHANGED hp
+                 ELSE /\ hp.free # {} /\ hp.next <= MaxObj
+                      /\ LET a == CHOOSE x \in hp.free : \A y \in hp.free : x <= y
+                             ob == hp.next
+                             cu == Head(L(t).handles).a IN
+                         /\ hp' = [hp EXCEPT !.free = @ \ {a}, !.objAt[a] = ob, !.next = @ + 1]
+                         /\ Set(t, With([L(t) EXCEPT !.c = o.c, !.kind = "cas", !.steps = 0, !.stack = <<"R_cmp">>, !.depth = 1, !.spur = 0,
+                                                     !.cur = Guard(cu, 0, 0), !.new = a], LoadEntry))
+                         /\ Emit(<<[e |-> "inv", t |-> t, op |-> "cas", c |-> o.c, a |-> Obj(cu), b |-> -1, r |-> FreeG(t)],
+                                   [e |-> "alloc", t |-> t, o |-> ob, a |-> a, p |-> -1],
+                                   [e |-> "arg", t |-> t, v |-> ob]>>)
+              /\ UNCHANGED sh
          [] o.k = "dropg" ->
               /\ IF L(t).held = <<>> THEN Set(t, [L(t) EXCEPT !.ip = @ + 1]) /\ NoEmit
                  ELSE LET g == Head(L(t).held) IN
@@ -564,7 +577,7 @@ W_rel(t) ==    \* list.rs:56 active_writers.fetch_sub(1, Release)
 W_dec(t) ==    \* debt/mod.rs:113 implicit dec of the pre-paid reference
   /\ PC(t) = "W_dec"
   /\ Emit(DecEvs(t, L(t).old)) /\ hp' = HpAfterDec(L(t).old)
-  /\ Set(t, EndWith(Step1(L(t)), IF L(t).kind = "rcu" THEN "R_dec" ELSE "W_ret")) /\ UNCHANGED sh
+  /\ Set(t, EndWith(Step1(L(t)), IF L(t).kind \in {"rcu", "cas"} THEN "R_dec" ELSE "W_ret")) /\ UNCHANGED sh
 W_ret(t) ==
   /\ PC(t) = "W_ret"
   /\ IF L(t).kind = "swap"
@@ -594,7 +607,7 @@ R_cmp(t) ==    \* hybrid.rs:216 old.as_ptr() != current.as_raw()
   /\ PC(t) = "R_cmp"
   /\ IF L(t).r.a # L(t).cur.a
      THEN \* compare_and_swap returns old; rcu: not swapped -> new is dropped, cur = prev (the old cur guard is dropped)
-          Set(t, [L(t) EXCEPT !.pc = "R_dropnew", !.prev = L(t).r])
+          Set(t, [L(t) EXCEPT !.pc = IF L(t).kind = "cas" THEN "K_rej" ELSE "R_dropnew", !.prev = L(t).r])
      ELSE Set(t, [L(t) EXCEPT !.pc = "R_cx", !.prev = L(t).r])
   /\ NoEmit /\ UNCHANGED <<sh, hp>>
 R_cx(t) ==     \* hybrid.rs:221 storage.compare_exchange_weak(current, new, SeqCst, Relaxed)
@@ -636,7 +649,7 @@ R_refresh(t) == \* back at the top of rcu's loop with r := cur
 R_dec(t) ==    \* hybrid.rs:230 T::dec(old.as_ptr()): one count came out of the storage, one is in `old`
   /\ PC(t) = "R_dec"
   /\ Emit(DecEvs(t, L(t).old)) /\ hp' = HpAfterDec(L(t).old)
-  /\ Set(t, Step1([L(t) EXCEPT !.r = L(t).prev, !.pc = "RI_start"])) /\ UNCHANGED sh
+  /\ Set(t, Step1([L(t) EXCEPT !.r = L(t).prev, !.pc = IF L(t).kind = "cas" THEN "K_ret" ELSE "RI_start"])) /\ UNCHANGED sh
 \* success: compare_and_swap returns `old` (the guard of the last load = r); rcu returns Guard::into_inner(prev),
 \* then `cur` goes out of scope
 RI_start(t) ==
@@ -654,6 +667,16 @@ R_dropcur(t) ==
   /\ PC(t) = "R_dropcur"
   /\ Set(t, [L(t) EXCEPT !.r = L(t).cur, !.pc = "G_pay", !.after = "R_ret"])
   /\ NoEmit /\ UNCHANGED <<sh, hp>>
+\* compare_and_swap proper: rejected -> the new value is released, the guard of the current value is returned
+K_rej(t) ==    \* hybrid.rs drop(new) on the rejected path
+  /\ PC(t) = "K_rej"
+  /\ Emit(DecEvs(t, L(t).new)) /\ hp' = HpAfterDec(L(t).new)
+  /\ Set(t, Step1([L(t) EXCEPT !.pc = "K_ret"])) /\ UNCHANGED sh
+K_ret(t) ==    \* returns `old` (a guard) in both cases
+  /\ PC(t) = "K_ret"
+  /\ Set(t, Done([L(t) EXCEPT !.held = Append(@, [g |-> L(t).prev, reg |-> FreeG(t)])]))
+  /\ Emit(<<RetEv(t, "cas", L(t).c, Obj(L(t).prev.a), FreeG(t), L(t).steps)>>)
+  /\ UNCHANGED <<sh, hp>>
 R_ret(t) ==
   /\ PC(t) = "R_ret"
   /\ Set(t, Done([L(t) EXCEPT !.handles = Append(@, [a |-> L(t).old, reg |-> FreeH(t)])]))
@@ -674,6 +697,7 @@ Step(t) ==
   \/ H_cas(t) \/ H_spacest(t) \/ H_drop(t) \/ P_slot(t) \/ P_inc(t) \/ W_rel(t) \/ W_dec(t) \/ W_ret(t)
   \/ R_cur(t) \/ R_cmp(t) \/ R_cx(t) \/ G_pay(t) \/ R_dropold(t) \/ R_again(t) \/ R_dropnew(t)
   \/ R_swapcur(t) \/ R_refresh(t) \/ R_dec(t) \/ R_dropcur(t) \/ RI_start(t) \/ RI_pay(t) \/ R_ret(t)
+  \/ K_rej(t) \/ K_ret(t)
 
 InOp(t) == PC(t) \notin {"idle", "dead"}
 
